@@ -124,6 +124,9 @@ impl FeeEstimator for SimFee {
 // Broadcaster: an outbox the scheduler relays to the mempool.
 
 pub struct SimBroadcaster {
+	/// simulator step at which each txid was first handed to the broadcaster
+	pub first_seen: Mutex<BTreeMap<Txid, u64>>,
+	pub now_step: std::sync::atomic::AtomicU64,
 	pub outbox: Mutex<Vec<(Transaction, String)>>,
 	/// total number of transactions ever handed over (monotonic)
 	pub total: AtomicU32,
@@ -131,7 +134,12 @@ pub struct SimBroadcaster {
 
 impl SimBroadcaster {
 	pub fn new() -> Self {
-		SimBroadcaster { outbox: Mutex::new(Vec::new()), total: AtomicU32::new(0) }
+		SimBroadcaster {
+			first_seen: Mutex::new(BTreeMap::new()),
+			now_step: std::sync::atomic::AtomicU64::new(0),
+			outbox: Mutex::new(Vec::new()),
+			total: AtomicU32::new(0),
+		}
 	}
 	pub fn take(&self) -> Vec<(Transaction, String)> {
 		std::mem::take(&mut *self.outbox.lock().unwrap())
@@ -151,6 +159,8 @@ impl BroadcasterInterface for SimBroadcaster {
 			self.total.fetch_add(1, Ordering::Relaxed);
 			let ty = format!("{:?}", ty);
 			let kind = ty.split(|c: char| !c.is_alphanumeric()).next().unwrap_or("").to_string();
+			let step = self.now_step.load(Ordering::Relaxed);
+			self.first_seen.lock().unwrap().entry(tx.compute_txid()).or_insert(step);
 			o.push(((*tx).clone(), kind));
 		}
 	}
